@@ -306,6 +306,12 @@ class SimPool:
             if self._terminated or (self._closed and not self.tasks):
                 return
             if self._vacancies > 0:
+                # the real handler polls every 0.1 s: the replacement is forked after a delay that
+                # is long compared with a task; the parent is then at an arbitrary point
+                for _ in range(sim.sched.draw(80)):
+                    sim.step(None, None)
+                    if self._terminated:
+                        return
                 self._vacancies -= 1
                 sim.step("pool-repopulate", self.no)
                 self._fork_worker()
